@@ -33,3 +33,39 @@ Theorem C08_rr_value_cells_constant :
     l_run (rrl_init cap) h = Ok (l', rs) -> List.length (l_elems l') = cap.
 Proof. exact @value_cells_constant. Qed.
 Print Assumptions C08_rr_value_cells_constant.
+
+(* ---- lru_cache / mru_cache (LruLit.v: std::list<size_t> with stable node identities, the
+   partition iterator, stored list and index iterators; [mru] selects the header) ---- *)
+Require Import Capp.ListCache Capp.ListCacheFacts Capp.LruLit Capp.LruLitFacts.
+
+Theorem C08_lru_mru_no_UB_on_any_history :
+  forall (K V : Type) (E : EqDec K) (mru : bool) cap (h : list (ev K V)),
+    1 <= cap ->
+    exists l', ll_run mru (lrul_init cap) h = Ok (l', snd (run (lc_step (pol mru)) (lc_init cap) h)) /\
+               ll_rep mru l' (fst (run (lc_step (pol mru)) (lc_init cap) h)).
+Proof. exact @ll_no_UB_on_any_history. Qed.
+Print Assumptions C08_lru_mru_no_UB_on_any_history.
+
+Theorem C08_lru_mru_value_cells_constant :
+  forall (K V : Type) (E : EqDec K) (mru : bool) cap (h : list (ev K V)) l' rs,
+    1 <= cap -> ll_run mru (lrul_init cap) h = Ok (l', rs) -> List.length (ll_elems l') = cap.
+Proof. exact @ll_value_cells_constant. Qed.
+Print Assumptions C08_lru_mru_value_cells_constant.
+
+(* ---- fifo_cache (FifoLit.v: std::list<element>, optional<keyed_iterator>, key -> list iterator) ---- *)
+Require Import Capp.FifoLit Capp.FifoLitFacts.
+
+Theorem C08_fifo_no_UB_on_any_history :
+  forall (K V : Type) (E : EqDec K) cap (h : list (ev K V)),
+    1 <= cap ->
+    exists l', fl_run (fifol_init cap) h = Ok (l', snd (run (lc_step fifo_policy) (lc_init cap) h)) /\
+               fl_rep l' (fst (run (lc_step fifo_policy) (lc_init cap) h)).
+Proof. exact @fl_no_UB_on_any_history. Qed.
+Print Assumptions C08_fifo_no_UB_on_any_history.
+
+Theorem C08_fifo_value_cells_constant :
+  forall (K V : Type) (E : EqDec K) cap (h : list (ev K V)) l' rs,
+    1 <= cap -> fl_run (fifol_init cap) h = Ok (l', rs) ->
+    List.length (fl_cells l') = cap /\ List.length (fl_list l') = cap.
+Proof. exact @fl_value_cells_constant. Qed.
+Print Assumptions C08_fifo_value_cells_constant.
